@@ -78,7 +78,7 @@ ConcFails(e) ==
     ELSE IF e.plan \notin DOMAIN solo THEN F(FALSE, e, "INC", "concurrent event without its solo twin")
     ELSE F(solo[e.plan] = Obs11(e), e, "C11", "a concurrent call returned something else than the same call run alone")
 
-Decisive(x) == x.class \in {"value", "error", "errorNV", "accept", "refuse"}
+Decisive(x) == x.class \in {"value", "error", "errorNV", "accept", "refuse", "panics"}
 
 (* eager (EXCEPT-based) counting: lazily built functions in the state would chain from state to state *)
 RECURSIVE Bump(_, _)
@@ -87,7 +87,7 @@ Bump(nb, new) == IF new = <<>> THEN nb ELSE Bump([nb EXCEPT ![Head(new).p] = @ +
 Init == /\ l = 1
         /\ bad = <<>>
         /\ nbad = [p \in PropIds |-> 0]
-        /\ cnt = [c \in {"value", "error", "errorNV", "accept", "refuse", "any", "miss", "badhint", "row"} |-> 0]
+        /\ cnt = [c \in {"value", "error", "errorNV", "accept", "refuse", "any", "miss", "badhint", "row", "panics"} |-> 0]
         /\ canon = [kind |-> "none"]
         /\ usedIv = {}
         /\ solo = <<>>
